@@ -995,3 +995,170 @@ Definition sk_register : list ev :=
    Wr "entries";
    IfE;
    LoopE].
+
+Definition sk_rsp_init : list ev :=
+  [Call "base_init";
+   Call "mgr_value";
+   Wr "alloc_pointer";
+   Call "mgr_dict";
+   Wr "data";
+   Call "mgr_dict";
+   Wr "value_store";
+   Call "mgr_dict";
+   Wr "tag_store";
+   Call "mgr_dict";
+   Wr "sequence_id_store";
+   Wr "local_store"].
+
+Definition sk_rsp_allocate_next : list ev :=
+  [Acq "store";
+   Call "base_allocate_next";
+   Ret;
+   Rel "store"].
+
+Definition sk_rsp_local : list ev :=
+  [Call "getpid";
+   Rd "local_store";
+   IfB;
+   Rd "preallocate_fn";
+   Rd "bsize";
+   Call "new_local_store";
+   Wr "local_store";
+   Else;
+   Rd "local_store";
+   IfB;
+   RaiseE "ResultStoreException";
+   Else;
+   IfE;
+   IfE;
+   Rd "local_store";
+   Ret].
+
+Definition sk_rsp_add : list ev :=
+  [Call "local_add";
+   Ret].
+
+Definition sk_base_sync : list ev :=
+  [].
+
+Definition sk_sync_local : list ev :=
+  [Acq "store";
+   Rd "local_data";
+   LoopB;
+   IfB;
+   Else;
+   IfE;
+   LoopE;
+   Rd "local_value_store";
+   LoopB;
+   LoopE;
+   Rd "local_tag_store";
+   LoopB;
+   LoopE;
+   Rd "local_sequence_id_store";
+   LoopB;
+   LoopE;
+   Rel "store"].
+
+Definition sk_result_base_init : list ev :=
+  [Call "base_init";
+   Wr "store";
+   Wr "linenumber";
+   Wr "section_id"].
+
+Definition sk_result_iter : list ev :=
+  [Rd "parts";
+   LoopB;
+   Call "store_get";
+   LoopE].
+
+Definition sk_minimal_init : list ev :=
+  [Wr "parts";
+   Wr "meta";
+   Wr "linenumber";
+   Wr "source_id";
+   Wr "section_id";
+   IfB;
+   Wr "field_names";
+   Else;
+   Wr "field_names";
+   IfE;
+   Wr "store"].
+
+Definition sk_minimal_getattr : list ev :=
+  [IfB;
+   Rd "field_names";
+   Rd "field_names";
+   IfB;
+   Call "get";
+   Ret;
+   Else;
+   IfE;
+   Else;
+   IfE;
+   RaiseE "AttributeError"].
+
+Definition sk_minimal_tag : list ev :=
+  [Rd "meta";
+   IfB;
+   Ret;
+   Else;
+   IfE;
+   Call "store_get";
+   Ret].
+
+Definition sk_minimal_sequence_id : list ev :=
+  [Rd "meta";
+   IfB;
+   Ret;
+   Else;
+   IfE;
+   Call "store_get";
+   Ret].
+
+Definition sk_register_results_store : list ev :=
+  [Wr "store"].
+
+Definition sk_result_init : list ev :=
+  [Wr "store";
+   Wr "parts";
+   Wr "linenumber";
+   Wr "source_id";
+   Rd "def_tag";
+   Wr "tag";
+   Wr "section_id";
+   Wr "sequence_id";
+   Rd "def_sequence";
+   IfB;
+   IfB;
+   RaiseE "FileSearchException";
+   Else;
+   IfE;
+   Rd "def_sequence_id";
+   Wr "sequence_id";
+   Else;
+   IfE;
+   Rd "def_field_info";
+   Wr "field_info";
+   Rd "def_store_contents";
+   IfB;
+   Ret;
+   Else;
+   IfE;
+   Call "store_result"].
+
+Definition sk_result_metadata : list ev :=
+  [Rd "tag";
+   Rd "sequence_id";
+   Call "store_add";
+   Ret].
+
+Definition sk_result_export : list ev :=
+  [Rd "parts";
+   Rd "metadata_property";
+   Rd "linenumber";
+   Rd "source_id";
+   Rd "section_id";
+   Rd "field_info";
+   Call "new_minimal";
+   Ret].
